@@ -899,4 +899,194 @@ theorem chunksOf_map {α β} (f : α → β) (n : Nat) (l : List α) :
       rw [ih (l.drop n).length (by simp only [List.length_drop]; omega) (l.drop n) rfl,
         List.map_drop]
 
+/-! ### no error on well-formed input -/
+
+theorem listMax_some {l : List Rat} (h : l ≠ []) : ∃ m, listMax l = some m := by
+  cases l with
+  | nil => exact absurd rfl h
+  | cons x xs => exact ⟨_, rfl⟩
+
+theorem penetranceDistance_total {t : Thresholds} {g : List GeneScore} (ht : ThresholdsOK t)
+    (hg : g ≠ []) : ∃ d, penetranceDistance t g = .ok d ∧ d.length = g.length := by
+  unfold penetranceDistance
+  rw [checkThresholds_ok.mpr ht]
+  simp only
+  have hne : ∀ f : GeneScore → Rat, g.map f ≠ [] := by
+    intro f; simpa using hg
+  obtain ⟨a, ha⟩ := listMax_some (hne (rawQdiffDist t))
+  obtain ⟨b, hb⟩ := listMax_some (hne (rawQ1Dist t))
+  obtain ⟨c, hc⟩ := listMax_some (hne (rawFoldDist t))
+  have : badDist t g = some (max a (max b c) + 100) := by
+    unfold badDist; rw [ha, hb, hc]
+  rw [this]
+  exact ⟨_, rfl, by simp⟩
+
+theorem kth_some {l : List Rat} {k : Nat} (h : k < l.length) : ∃ c, kth l k = some c := by
+  unfold kth
+  have : k < (l.mergeSort (fun a b => decide (a ≤ b))).length := by
+    rw [List.length_mergeSort]; exact h
+  exact ⟨_, List.getElem?_eq_getElem this⟩
+
+/-- the approximate penetrance test never fails on a non-empty gene list with thresholds above
+their floors, whatever `n_valid` -/
+theorem approx_total {t : Thresholds} (nValid : Nat) {g : List GeneScore} (ht : ThresholdsOK t)
+    (hg : g ≠ []) : ∃ m, approxPenetranceTest t nValid g = .ok m ∧ m.length = g.length := by
+  obtain ⟨d, hd, hlen⟩ := penetranceDistance_total ht hg
+  unfold approxPenetranceTest
+  simp only [hd]
+  split
+  · exact ⟨_, rfl, by simp [hlen]⟩
+  · rename_i hcount
+    have hpos : 0 < g.length := List.length_pos_iff.mpr hg
+    have hk : min nValid g.length - 1 < d.length := by
+      rw [hlen]
+      have := Nat.min_le_right nValid g.length
+      omega
+    obtain ⟨c1, h1⟩ := kth_some (l := d.map (·.q1)) (k := min nValid g.length - 1) (by simpa using hk)
+    obtain ⟨c2, h2⟩ := kth_some (l := d.map (·.qdiff)) (k := min nValid g.length - 1) (by simpa using hk)
+    obtain ⟨c3, h3⟩ := kth_some (l := d.map (·.fold)) (k := min nValid g.length - 1) (by simpa using hk)
+    rw [h1, h2, h3]
+    exact ⟨_, rfl, by simp [hlen]⟩
+
+theorem penetranceFromStats_total {t : Thresholds} (exact : Bool) (nValid : Nat)
+    {allowed : List Bool} {g : List GeneScore} (ht : ThresholdsOK t) (hg : g ≠ [])
+    (hlen : allowed.length = g.length) :
+    ∃ m, penetranceFromStats t exact nValid allowed g = .ok m ∧ m.length = g.length := by
+  have hml : (maskScores allowed g).length = g.length := by
+    unfold maskScores; simp [hlen]
+  have hne : maskScores allowed g ≠ [] := by
+    intro e
+    rw [e] at hml
+    exact hg (List.length_eq_zero_iff.mp hml.symm)
+  unfold penetranceFromStats penetranceTests
+  cases exact with
+  | true => exact ⟨_, rfl, by simp [hml]⟩
+  | false =>
+    simp only [Bool.false_eq_true, if_false]
+    obtain ⟨m, hm, hl⟩ := approx_total nValid ht hne
+    exact ⟨m, hm, by rw [hl, hml]⟩
+
+theorem length_allowedMask (n : Nat) (gi : Option (List Nat)) : (allowedMask n gi).length = n := by
+  cases gi <;> simp [allowedMask]
+
+/-- `score_differential_genes` never fails when the thresholds are above their floors and the
+arrays have one entry per gene -/
+theorem scoreCore_total (o : List Nat) (c : Config) (n1 n2 : Nat) {praw : List Rat}
+    {g : List GeneScore} (m1 m2 : List Rat) (ht : ThresholdsOK c.th) (hg : g ≠ [])
+    (hp : praw.length = g.length) : ∃ out, scoreCoreWith o c n1 n2 praw g m1 m2 = .ok out := by
+  unfold scoreCoreWith
+  simp only
+  split
+  · exact ⟨_, rfl⟩
+  · obtain ⟨pen1, h1, _⟩ := penetranceFromStats_total c.exact c.nValid ht hg
+      (length_allowedMask g.length c.geneIdx)
+    rw [h1]
+    simp only
+    split
+    · exact ⟨_, rfl⟩
+    · have hl2 : (andL (allowedMask g.length c.geneIdx)
+          ((approxCorrectTtestWith o praw c.th.pTh).map (fun p => decide (p < c.th.pTh)))).length
+          = g.length := by
+        unfold andL
+        simp [length_allowedMask, hp]
+      obtain ⟨pen2, h2, _⟩ := penetranceFromStats_total c.exact c.nValid ht hg hl2
+      rw [h2]
+      exact ⟨_, rfl⟩
+
+/-- `_get_validity_mask` never fails when there is at least one gene (fix 6815ee0) -/
+theorem getValidityMask_total (nValid : Nat) {nGenes : Nat} (row : List (Nat × Rat))
+    (gi : Option (List Nat)) (hn : 0 < nGenes) :
+    ∃ v, getValidityMask nValid nGenes row gi = .ok v := by
+  unfold getValidityMask
+  simp only
+  have hne : (List.range nGenes).map (maskDist0 row) ≠ [] := by
+    intro e
+    have := congrArg List.length e
+    simp at this
+    omega
+  obtain ⟨good, hgood⟩ := listMax_some hne
+  rw [hgood]
+  simp only
+  split
+  · rename_i hcount
+    have hk : min nValid nGenes - 1 <
+        ((List.range nGenes).map (maskDist row gi (2 * (good + 1)))).length := by
+      simp only [List.length_map, List.length_range]
+      have := Nat.min_le_right nValid nGenes
+      omega
+    obtain ⟨c, hc⟩ := kth_some hk
+    rw [hc]
+    exact ⟨_, rfl⟩
+  · exact ⟨_, rfl⟩
+
+theorem maskRoute_total (o : List Nat) (r16 : Rat → Rat) {t : Thresholds} (nValid : Nat)
+    (gi : Option (List Nat)) (n1 n2 : Nat) (praw : List Rat) {g : List GeneScore}
+    (m1 m2 : List Rat) (ht : ThresholdsOK t) (hg : g ≠ []) :
+    ∃ out, maskRouteWith o r16 t nValid gi n1 n2 praw g m1 m2 = .ok out := by
+  have hpos : 0 < g.length := List.length_pos_iff.mpr hg
+  unfold maskRouteWith pValuesWorkerRowWith
+  split
+  · rename_i row hrow
+    split at hrow
+    · cases hrow
+    · obtain ⟨d, hd, _⟩ := penetranceDistance_total ht hg
+      simp only [hd] at hrow
+      cases hrow
+  · rename_i row hrow
+    obtain ⟨v, hv⟩ := getValidityMask_total nValid row gi hpos
+    rw [hv]
+    exact ⟨_, rfl⟩
+
+/-! ### chunks handed to the workers -/
+
+theorem diffs_range' (a k : Nat) :
+    List.zipWith (fun (x y : Nat) => (y : Int) - (x : Int)) (List.range' a (k + 1))
+      (List.range' (a + 1) k) = List.replicate k 1 := by
+  induction k generalizing a with
+  | zero => simp
+  | succ k ih =>
+    rw [List.range'_succ (s := a) (n := k + 1)]
+    conv_lhs => arg 3; rw [List.range'_succ (s := a + 1) (n := k)]
+    simp only [List.zipWith_cons_cons, List.replicate_succ]
+    rw [ih (a + 1)]
+    congr 1
+    push_cast; ring
+
+theorem eraseDups_replicate_one (k : Nat) : (List.replicate (k + 1) (1 : Int)).eraseDups = [1] := by
+  induction k with
+  | zero => simp [List.eraseDups_cons]
+  | succ n ih =>
+    rw [List.replicate_succ, List.eraseDups_cons]
+    rw [List.replicate_succ, List.eraseDups_cons] at ih
+    have hf : ∀ m : Nat, (List.replicate m (1 : Int)).filter (fun b => !b == 1) = [] := by
+      intro m
+      apply List.filter_eq_nil_iff.mpr
+      intro x hx
+      simp [(List.mem_replicate.mp hx).2]
+    rw [hf] at ih ⊢
+    exact ih
+
+/-- any run of consecutive pair indices, including a single one, passes the workers' test
+(fix 9252ab1) -/
+theorem consecutive_ok (a k : Nat) : consecutiveCheck (List.range' a k) = .ok () := by
+  unfold consecutiveCheck
+  simp only [List.length_range']
+  split
+  · rename_i hk
+    obtain ⟨k', rfl⟩ : ∃ k', k = k' + 2 := ⟨k - 2, by omega⟩
+    have ht : (List.range' a (k' + 2)).tail = List.range' (a + 1) (k' + 1) := by
+      rw [List.range'_succ]; rfl
+    rw [ht, diffs_range' a (k' + 1), eraseDups_replicate_one]
+    simp
+  · rfl
+
+theorem nPerMain_mod8 (nPairs nProc : Nat) : nPerMain nPairs nProc % 8 = 0 ∧ 8 ≤ nPerMain nPairs nProc := by
+  unfold nPerMain
+  simp only
+  constructor
+  · rcases Nat.le_total 8 (min 1000000 (nPairs / (2 * nProc)) - min 1000000 (nPairs / (2 * nProc)) % 8) with h | h
+    · rw [Nat.max_eq_right h]; omega
+    · rw [Nat.max_eq_left h]
+  · exact Nat.le_max_left _ _
+
 end CTM.RefMarkers
